@@ -732,7 +732,7 @@ func c10(x *mon.Ctx) {
 		}
 		// rewrite the first level by hand: sgx components stay at 16 zeros (so they match), tdx components get nc entries
 		lv := fmt.Sprintf(`{"tcb":{"sgxtcbcomponents":%s,"pcesvn":0,"tdxtcbcomponents":%s},"tcbDate":"2023-02-15T00:00:00Z","tcbStatus":"UpToDate"}`, comp(16), comp(nc))
-		i := strings.Index(spec, `"tcbLevels":[`)
+		i := strings.LastIndex(spec, `"tcbLevels":[{"tcb":{"sgxtcbcomponents"`) // the platform's list, not a module identity's
 		spec = spec[:i] + `"tcbLevels":[` + lv + `]}`
 		w2.TcbBody = world.SignedBody("tcbInfo", spec, w2.PKI.TcbSign.Key)
 		shapes = append(shapes, w2.Case(world.LColl, "reporting-api-cross", fmt.Sprintf("tdxcomponents=%d", nc)))
@@ -743,15 +743,21 @@ func c10(x *mon.Ctx) {
 		wire, _ := proto.Marshal(m.M)
 		wit := map[string]any{"case": c, "mutation": m.Name, "wire": wire}
 		x.Crumb(i, "none", wit)
+		var verr, rerr error
 		pv, st := mon.Guard(func() {
-			_ = verify.TdxQuote(valid, o)
+			verr = verify.TdxQuote(valid, o)
 			_, _, _ = verify.SupportedTcbLevelsFromCollateral(m.M, o)
+			_, _, rerr = verify.SupportedTcbLevelsFromCollateral(valid, o)
 		})
 		if pv != "" {
 			x.Violation(c.Class, c.Param+"/"+m.Name, "verify.TdxQuote(valid quote) then SupportedTcbLevelsFromCollateral(mutated message) panics: "+pv+"\n"+st, "none", wit)
 		}
-		x.Note(c.Class, c.Param+"/"+m.Name, false, pv != "", pv == "")
+		// "accept" counts the runs in which the options value really held verified collateral when the reporting API was
+		// called (the valid quote verified, or the reporting API answered for it): a run that stopped at the download
+		// observes nothing about the reporting API
+		x.Note(c.Class, c.Param+"/"+m.Name, verr == nil || rerr == nil, pv != "", pv == "")
 	})
+	x.Require("reporting-api-cross", len(muts), 0, len(shapes)*len(muts))
 
 	// 4. hostile DER in the SGX extension
 	ders := derMutants(x.Rand("der"), world.SgxExtension(w.P), x.Pick(2000, 200000))
